@@ -1184,8 +1184,8 @@ pub fn run_case<T: Elem + SatisfyTraits<Tr>, Tr: ?Sized + TrOps, M: BackOps>(cas
         let _ = write!(line, " ev={} raw={}", ev, w.raw_line);
         let _ = write!(line, " msg={}", msg.replace(|c: char| c.is_whitespace(), "_"));
         let _ = write!(line, " viol={}", viol.join("+").replace(' ', "_"));
-        outp.push_str(&line);
-        outp.push('\n');
+        line.push('\n');
+        crate::emit(&line);
     }
     // end of case: drop everything, then the ledgers must be empty
     let r = catch_unwind(AssertUnwindSafe(|| {
@@ -1202,7 +1202,10 @@ pub fn run_case<T: Elem + SatisfyTraits<Tr>, Tr: ?Sized + TrOps, M: BackOps>(cas
     let (live_elems, created, dropped) = with_reg(|r| {
         (r.live.values().filter(|c| **c > 0).map(|c| *c as u64).sum::<u64>(), r.created, r.dropped)
     });
-    let _ = writeln!(outp, "{} end live={} created={} dropped={} blocks={} heap={} viol={}",
+    let _ = outp;
+    let mut end = String::new();
+    let _ = writeln!(end, "{} end live={} created={} dropped={} blocks={} heap={} viol={}",
         case.id, if T::DG { live_elems.to_string() } else { "-".into() }, created, dropped,
         live_blocks, heap_live, viol.join("+").replace(' ', "_"));
+    crate::emit(&end);
 }
